@@ -185,7 +185,7 @@ func init() {
 			}
 		}
 		for _, ds := range [][2]int{{50, 0}, {80, 0}, {50, 20}, {0, 30}, {-1, 0}, {40, -1}, {-1, -1}, {0, 0}, {20, 50}} {
-			w.write(runC13File(ds[0], ds[1], []int{10, 100, 1000}[c.rng.Intn(3)], 300))
+			w.write(runC13File(ds[0], ds[1], []int{10, 50, 100}[c.rng.Intn(3)], 300)) // (rate x ticks x 4*10^4 stays below 2^31 for TLC)
 		}
 		fmt.Println("c13 traces:", w.n)
 		return nil
